@@ -52,7 +52,9 @@ def oracle_cases(tier, rng):
         for mode in MODES5:
             for J in (1, 2):
                 for (H, W) in [(4 * Lc, 4 * Lr + 2), (24, 30)]:
-                    yield dict(kind='2d', wave=wc, wave_row=wr, mode=mode, J=J, H=H, W=W, none=None, axes=[(H, Lc), (W, Lr)], seed=int(rng.integers(1 << 30)))
+                    # all levels present, and a level given as None (must use the column pair along the rows axis and the row pair along the last axis too)
+                    for mask in [None, tuple([1] + [0] * (J - 1)), tuple([0] * (J - 1) + [1])][: (3 if J > 1 else 2)]:
+                        yield dict(kind='2d', wave=wc, wave_row=wr, mode=mode, J=J, H=H, W=W, none=mask, axes=[(H, Lc), (W, Lr)], seed=int(rng.integers(1 << 30)))
 
 
 def strat_key_(cfg):
